@@ -11,6 +11,7 @@ import LolHtml.Lane.CApi
 import LolHtml.Lane.Sel
 import LolHtml.Lane.Edit
 import LolHtml.Lane.Attrs
+import LolHtml.Lane.Full
 
 namespace LolHtml.Lane
 
@@ -29,7 +30,8 @@ def registry : List (String × (String → String)) :=
     ("capi", CApi.run),
     ("sel", Sel.run),
     ("edit", Edit.run),
-    ("attrs", Attrs.run) ]
+    ("attrs", Attrs.run),
+    ("full", Full.run) ]
 
 def find (name : String) : Option (String → String) :=
   (registry.find? (·.1 == name)).map (·.2)
